@@ -12,8 +12,27 @@ pub fn is_marked(e: &io::Error) -> bool {
     e.to_string().contains(FAULT_MARK)
 }
 
-fn fault() -> io::Error {
-    io::Error::new(io::ErrorKind::Other, FAULT_MARK)
+/// Kinds an injected failure may carry. `Interrupted` is left out on purpose: `read_exact` / `write_all` retry it by
+/// contract, so a one-shot `Interrupted` failure is legitimately invisible to the caller.
+pub const FAULT_KINDS: [io::ErrorKind; 10] = [
+    io::ErrorKind::Other,
+    io::ErrorKind::InvalidData,
+    io::ErrorKind::UnexpectedEof,
+    io::ErrorKind::PermissionDenied,
+    io::ErrorKind::WriteZero,
+    io::ErrorKind::InvalidInput,
+    io::ErrorKind::BrokenPipe,
+    io::ErrorKind::NotFound,
+    io::ErrorKind::TimedOut,
+    io::ErrorKind::WouldBlock,
+];
+
+pub fn fault_kind(kind: u8) -> io::ErrorKind {
+    FAULT_KINDS[kind as usize % FAULT_KINDS.len()]
+}
+
+fn fault(kind: u8) -> io::Error {
+    io::Error::new(fault_kind(kind), FAULT_MARK)
 }
 
 #[derive(Clone, Debug, PartialEq, Eq)]
@@ -45,6 +64,8 @@ pub struct DestState {
     /// short-write schedule: at most chunk[i % len] bytes are accepted by the i-th write call
     pub chunks: Vec<usize>,
     pub write_calls: usize,
+    /// index into FAULT_KINDS of the injected failures
+    pub fault_kind: u8,
 }
 
 /// Shared-handle destination: clone one handle into the writer, keep the other to inspect.
@@ -62,11 +83,18 @@ impl Dest {
             faulted_at: vec![],
             chunks: vec![],
             write_calls: 0,
+            fault_kind: 0,
         })))
     }
     pub fn with_fault(f: FaultMode) -> Dest {
         let d = Dest::new();
         d.0.borrow_mut().fault = f;
+        d
+    }
+    pub fn with_fault_kind(f: FaultMode, kind: u8) -> Dest {
+        let d = Dest::new();
+        d.0.borrow_mut().fault = f;
+        d.0.borrow_mut().fault_kind = kind;
         d
     }
     pub fn with_chunks(c: Vec<usize>) -> Dest {
@@ -126,7 +154,7 @@ impl DestState {
         };
         if fail {
             self.faulted_at.push(k);
-            Err(fault())
+            Err(fault(self.fault_kind))
         } else {
             Ok(())
         }
@@ -220,6 +248,8 @@ pub struct SrcState {
     pub read_calls: usize,
     /// largest single read request seen
     pub max_req: usize,
+    /// index into FAULT_KINDS of the injected failure
+    pub fault_kind: u8,
 }
 
 #[derive(Clone, Debug)]
@@ -242,12 +272,18 @@ impl Src {
                 chunks: vec![],
                 read_calls: 0,
                 max_req: 0,
+                fault_kind: 0,
             })),
         }
     }
     pub fn faulting(data: Vec<u8>, k: usize) -> Src {
         let s = Src::new(data);
         s.st.borrow_mut().fault_at = Some(k);
+        s
+    }
+    pub fn faulting_kind(data: Vec<u8>, k: usize, kind: u8) -> Src {
+        let s = Src::faulting(data, k);
+        s.st.borrow_mut().fault_kind = kind;
         s
     }
     pub fn short(data: Vec<u8>, chunks: Vec<usize>) -> Src {
@@ -274,7 +310,7 @@ impl Read for Src {
         s.reads += 1;
         if s.fault_at == Some(k) {
             s.faulted = true;
-            return Err(fault());
+            return Err(fault(s.fault_kind));
         }
         s.max_req = s.max_req.max(buf.len());
         let avail = self.data.len().saturating_sub(s.pos);
@@ -299,7 +335,7 @@ impl Seek for Src {
         s.seeks += 1;
         if s.fault_at == Some(k) {
             s.faulted = true;
-            return Err(fault());
+            return Err(fault(s.fault_kind));
         }
         let to = match from {
             SeekFrom::Start(n) => n as i128,
